@@ -359,6 +359,9 @@ def handleMonoBuild (inp out : List String) : String :=
         (match final with
          | some st => " splits=" ++ toString (st.segs.length - (MonoBuild.inputLines ps).length) ++
              " chains=" ++ toString st.chains.length
+         | none => "") ++
+        (match model with
+         | some ms => if ms.all wellFormed then "" else " model-pieces-not-wellformed"
          | none => "")
       reply same prop cls (piecesStr model) (piecesStr o)
   | _, _ => "ERR parse"
